@@ -76,6 +76,10 @@ Fixpoint wild_only_last (l : list Z) : bool :=
 
 (* pre, post and dev numbers are not negative (a number >= 2^63 in the input is stored
    as a negative int, printed with a minus sign, and the sign is read back as a separator) *)
+(* ... and the first release number is not the infinity sign (accepted after an epoch
+   spelled with leading zeros, 01!<inf>, but the canonical 1!<inf>.0.0 is rejected by
+   possibleVersionString) *)
 Definition c10_pypi_dom (nums : list Z) (e : option pep440) : bool :=
   let x := make_ext e in
-  wild_only_last nums && (0 <=? p_prenum x) && (0 <=? p_postnum x) && (0 <=? p_devnum x).
+  wild_only_last nums && negb (hd 0 nums =? infinity) &&
+  (0 <=? p_prenum x) && (0 <=? p_postnum x) && (0 <=? p_devnum x).
